@@ -708,7 +708,7 @@ func vfSynthExpected(r *verifkit.Rand, i int) *conformancev1.TestCase {
 		for k := r.Intn(4); k > 0; k-- {
 			h := &conformancev1.Header{Name: fmt.Sprintf("X-%s-%d", prefix, len(hs))}
 			for v := 1 + r.Intn(3); v > 0; v-- {
-				h.Value = append(h.Value, verifkit.Pick(r, []string{"a", "b", "c d", "e,f", "g, h", "", "Zz"}))
+				h.Value = append(h.Value, verifkit.Pick(r, []string{"a", "b", "c d", "e,f", "g, h", "", "Zz", "a, ,b", "x,,y", ",", " , ", "k,"}))
 			}
 			hs = append(hs, h)
 		}
